@@ -8,7 +8,7 @@ import (
 	"golang.org/x/tools/go/ssa"
 )
 
-const maxInlineDepth = 4
+const maxInlineDepth = 6
 const maxInlineInstrs = 60
 
 func (v *FnVC) call(fr *frame, st *State, x ssa.CallInstruction) Val {
@@ -85,6 +85,9 @@ func (v *FnVC) call1(fr *frame, st *State, x ssa.CallInstruction) Val {
 			v.sc.Assert(Not(reach))
 			return v.freshTyped("ret", rt, st, reach)
 		}
+		if res, ok := v.emitIntrinsic(fr, st, callee, args, x); ok {
+			return res
+		}
 		if res, ok := v.intrinsic(fr, st, callee, args, x); ok {
 			return res
 		}
@@ -109,6 +112,10 @@ func (v *FnVC) call1(fr *frame, st *State, x ssa.CallInstruction) Val {
 		v.applyMods(st, ms)
 	})
 	v.bumpAlloc(st, reach)
+	{
+		fm, top := v.callMayEmit(x)
+		v.havocEmits(st, fm, top)
+	}
 	return v.freshTyped("ret."+calleeName(c), rt, st, reach)
 }
 
@@ -173,6 +180,9 @@ func (v *FnVC) canInline(fr *frame, callee *ssa.Function) bool {
 	if !v.w.InModule(callee) {
 		return false
 	}
+	if v.w.IsParametric(callee) {
+		return false // higher-order framework functions are summarised by the effects of their callbacks
+	}
 	n := 0
 	for _, b := range callee.Blocks {
 		n += len(b.Instrs)
@@ -191,12 +201,17 @@ func (v *FnVC) canInline(fr *frame, callee *ssa.Function) bool {
 	if con := v.w.Contracts.ByFunc[callee]; con != nil && con.Inline {
 		return true
 	}
+	if callee.Parent() != nil && fr.fn != nil && (callee.Parent() == fr.fn || isAncestor(fr.fn, callee)) {
+		// anonymous closures of the function being executed (w.Indented(func() {...})) are part of its body
+		return n <= 600
+	}
 	return n <= maxInlineInstrs
 }
 
 func (v *FnVC) inline(fr *frame, st *State, callee *ssa.Function, args, bind []Val, rt types.Type) Val {
 	reach := fr.reach[fr.curBlock.Index]
 	sub := &frame{fn: callee, depth: fr.depth + 1, params: args, freeVars: bind, entry: st.clone()}
+	sub.own = (fr.top || fr.own) && callee.Parent() != nil && isAncestor(v.fn, callee) && callee.Name() != "" && v.w.Contracts.ByFunc[callee] == nil
 	if len(args) != len(callee.Params) || len(bind) != len(callee.FreeVars) {
 		panic(unsupported("inline arity mismatch for %s", callee.Name()))
 	}
@@ -243,7 +258,7 @@ func (v *FnVC) applyContract(fr *frame, st *State, con *Contract, callee *ssa.Fu
 	}
 	pre := st.clone()
 	sub.entry = pre
-	if fr.top {
+	if fr.top || fr.own {
 		for _, c := range con.Requires {
 			env := &specEnv{v: v, fr: sub, st: pre, old: pre}
 			t := env.evalBool(c.Expr)
@@ -274,6 +289,15 @@ func (v *FnVC) applyContract(fr *frame, st *State, con *Contract, callee *ssa.Fu
 		})
 		v.bumpAlloc(st, reach)
 		res = v.freshTyped("ret."+callee.Name(), rt, st, reach)
+		v.extraFormats = formatsOfContract(con)
+		if x != nil {
+			fm, top := v.callMayEmit(x)
+			v.havocEmits(st, fm, top)
+		} else {
+			fm, top := v.w.mods.MayEmit(callee)
+			v.havocEmits(st, fm, top)
+		}
+		v.extraFormats = nil
 	}
 	for _, c := range con.Ensures {
 		env := &specEnv{v: v, fr: sub, st: st, old: pre, result: res, resType: callee.Signature.Results()}
@@ -281,6 +305,10 @@ func (v *FnVC) applyContract(fr *frame, st *State, con *Contract, callee *ssa.Fu
 		if t, ok := tryEvalBool(env, c.Expr); ok {
 			v.sc.Assert(Implies(reach, t))
 		}
+	}
+	if fr.top && len(con.Ensures) > 0 {
+		// vacuity guard: the assumed postconditions must be consistent with what is known at the call
+		v.addObl("COVER-call", calleeShort(callee), x.Pos(), reach, tTrue, nil, "sat")
 	}
 	return res
 }
@@ -587,4 +615,13 @@ func tryEvalBool(env *specEnv, e SExpr) (t Term, ok bool) {
 		}
 	}()
 	return env.evalBool(e), true
+}
+
+func isAncestor(anc, f *ssa.Function) bool {
+	for p := f.Parent(); p != nil; p = p.Parent() {
+		if p == anc {
+			return true
+		}
+	}
+	return false
 }
